@@ -30,6 +30,7 @@ import (
 	"golang.org/x/sync/singleflight"
 
 	"chainguard.dev/apko/pkg/paths"
+	"chainguard.dev/apko/pkg/verifhook"
 )
 
 type flightCache[T any] struct {
@@ -438,6 +439,7 @@ func (t *cacheTransport) retrieveAndSaveFile(ctx context.Context, request *http.
 	// and if this fails this should surface in other ways
 	// (e.g. permission denied trying to read the file).
 	_ = tmp.Chmod(os.FileMode(0664))
+	verifhook.Point("index.tmp-created")
 
 	if err := func() error {
 		defer tmp.Close()
@@ -450,11 +452,14 @@ func (t *cacheTransport) retrieveAndSaveFile(ctx context.Context, request *http.
 		return "", err
 	}
 
+	verifhook.Point("index.body-copied")
 	// Now that we have the file has been written, rename to atomically populate
 	// the cache
+	verifhook.Point("index.pre-advertise")
 	if err := paths.AdvertiseCachedFile(tmp.Name(), cacheFile); err != nil {
 		return "", err
 	}
+	verifhook.Point("index.post-advertise")
 	return cacheFile, nil
 }
 
